@@ -22,7 +22,7 @@ ASSUMPTIONS = ["the pessimistic set is taken as observed (its correctness is C11
                "bands: rectangles 1e-12 rel for domination (closed form), ellipsoids 2e-6+1e-4*mag"]
 N = {"quick": 190, "thorough": 6000}
 VARS = ["PaVeBa", "PaVeBaGP-IH", "PaVeBaGP-DE", "PartialGP-rect", "PartialGP-ell", "VOGP", "EpsilonPAL", "Auer", "Auer-emp", "VOGP", "EpsilonPAL"]
-REQUIRE = {"quick": {"must_discard": 300, "must_keep": 1500, "runs": 150,
+REQUIRE = {"quick": {"must_discard": 300, "must_keep": 1500, "runs": 150, "frozen_witness_scenario_reached": 2,
                      **{f"must_discard::{v}": 5 for v in set(VARS)}, **{f"must_keep::{v}": 20 for v in set(VARS)}}}
 TIMEOUT = {"quick": 1500, "thorough": 7200}
 
@@ -41,8 +41,40 @@ def make(rng, variant):
     return case, order
 
 
+def directed_frozen_witness(mon):
+    """A member of P that is no longer useful keeps a frozen region; a candidate's refreshed region later falls
+    entirely below that stale region while no ACTIVE region dominates it.  The reference transition only accepts
+    active witnesses (S and U), so an elimination on the stale region is unjustified.  (Found by an independently
+    seeded change, seeded/C02-pavebagp-discard-witness-P.)"""
+    rng = np.random.default_rng(202)
+    e = 0.1
+    mu = np.array([[0.0, 0.0], [-0.6 * e, -0.6 * e], [0.5 * e, -1.0 * e]])
+    # version 0 is used by the first acquisition call, version 1 = round 1, version 2 = round 2, ...
+    r1_c = [[0.0, 0.0], [-0.6 * e + 0.97 * 0.4 * e, -0.6 * e + 0.97 * 0.4 * e], [0.5 * e, -1.2 * e]]
+    r1_h = [[0.05 * e, 0.05 * e], [0.4 * e, 0.4 * e], [0.2 * e, 1.8 * e]]
+    r2_c = [[0.0, 0.0], [-0.6 * e, -0.6 * e], [0.5 * e, -1.2 * e]]
+    r2_h = [[0.05 * e, 0.05 * e], [0.1 * e, 0.1 * e], [0.2 * e, 1.8 * e]]
+    for variant in ("PaVeBaGP-IH", "PartialGP-rect"):
+        case, order = runs.make_case(rng, variant, m=2, K=3, mu=mu, eps=e, scale=0.3, cone_families=["orthant"], contraction=1.0, batch=1)
+        case["fixed_boxes"] = ([r1_c, r1_c, r2_c], [r1_h, r1_h, r2_h])
+        case["stub_mode"] = "frozen-witness"
+        case["max_rounds"] = 4
+        tr = runs.run_case(case, order, mon, max_extra_steps=0)
+        mon.count("runs")
+        mon.count("directed_frozen_witness_runs")
+        for st in tr.steps:
+            if st["crash"] is None:
+                runchecks.check_discard(mon, tr, st)
+        if len(tr.steps) >= 2:
+            st = tr.steps[1]
+            if 0 in (st["pre"][1] or set()) and 0 not in (st["pre"][2] or set()) and 1 in st["pre"][0]:
+                mon.count("frozen_witness_scenario_reached")
+
+
 def shard(mon, tier, rng, shard_no, nshards):
     n = max(len(VARS), N[tier] // nshards)
+    if shard_no == 0:
+        directed_frozen_witness(mon)
     for it in range(n):
         variant = VARS[(it + shard_no) % len(VARS)]
         case, order = make(rng, variant)
